@@ -3,6 +3,9 @@ From Coq Require Import List Arith Bool Lia.
 From RecordUpdate Require Import RecordSet.
 From GS Require Import Base.LTS Model.Sender.
 Import ListNotations RecordSetNotations.
+Local Arguments Nat.ltb : simpl never.
+Local Arguments Nat.leb : simpl never.
+Local Arguments Nat.eq_dec : simpl never.
 
 (* ---------------------------------------------------------------------------------------- *)
 (* The inductive invariant.  [legacy = false] adds: no panic, nothing lost, and the two channel
@@ -10,10 +13,12 @@ Import ListNotations RecordSetNotations.
 Record inv (legacy : bool) (s : state) : Prop := {
   inv_cons : forall i, callbacks i s + held i s + queued i s + lostc i s = if i <? next s then 1 else 0;
   inv_idle : ph s = ConnIdle -> cur s = None;
+  inv_strm : ph s = ConnStream -> cur s <> None;
   inv_end : ph s = Cleanup \/ ph s = Draining \/ ph s = Stopped -> cur s = None;
   inv_stop : ph s = Stopped -> queue s = [];
   inv_ret : ph s = Returning -> errs s <> [];
   inv_err : forall i, cur s = Some i -> In i (wfail s) -> errs s <> [];
+  inv_wq : forall i, In i (wfail s) -> queued i s = 0 /\ i < next s;
   inv_cbs : Forall (cb_carries_error (wfail s)) (out s);
   inv_fresh : legacy = false ->
               ph s <> Panicked /\ lost s = [] /\
@@ -41,14 +46,23 @@ Proof.
 Qed.
 
 (* growing the set of failed streams by a stream that has no callback yet keeps [inv_cbs] *)
-Lemma cbs_grow s i :
-  callbacks i s = 0 -> Forall (cb_carries_error (wfail s)) (out s) ->
-  Forall (cb_carries_error (i :: wfail s)) (out s).
+Lemma cbs_grow (o : list cb) wf i :
+  count_occ Nat.eq_dec (map cb_id o) i = 0 -> Forall (cb_carries_error wf) o ->
+  Forall (cb_carries_error (i :: wf)) o.
 Proof.
   intros H0 H. rewrite Forall_forall in *. intros c Hc. destruct (H c Hc) as [A B].
   split; [exact A|]. intros [E|E]; [|auto].
-  exfalso. eapply no_callback_yet; eauto.
+  exfalso. apply (count_occ_not_In Nat.eq_dec) in H0. apply H0. rewrite E. apply in_map, Hc.
 Qed.
+
+Lemma ltb_S i n : (if i <? S n then 1 else 0) = (if i <? n then 1 else 0) + (if Nat.eq_dec n i then 1 else 0).
+Proof.
+  destruct (Nat.eq_dec n i); destruct (i <? S n) eqn:A; destruct (i <? n) eqn:B;
+    rewrite ?Nat.ltb_lt, ?Nat.ltb_ge in *; lia.
+Qed.
+
+Lemma count0_notin (l : list nat) i : count_occ Nat.eq_dec l i = 0 <-> ~ In i l.
+Proof. symmetry. apply count_occ_not_In. Qed.
 
 Ltac destr_match H :=
   repeat match type of H with
@@ -62,16 +76,80 @@ Ltac eqdec :=
          | H : context [Nat.eq_dec ?a ?b] |- _ => destruct (Nat.eq_dec a b); subst
          end.
 
-Lemma ltb_S i n : (if i <? S n then 1 else 0) = (if i <? n then 1 else 0) + (if Nat.eq_dec n i then 1 else 0).
-Proof.
-  destruct (Nat.eq_dec n i); destruct (i <? S n) eqn:A; destruct (i <? n) eqn:B;
-    rewrite ?Nat.ltb_lt, ?Nat.ltb_ge in *; lia.
-Qed.
+
+Ltac cons_arith Hc :=
+  let i0 := fresh "i0" in
+  intros i0; try specialize (Hc i0);
+  rewrite ?count_occ_snoc, ?ltb_S in *; cbn [count_occ map cb_id] in *; eqdec; try lia.
 
 Lemma step_inv legacy maxs s l s' : inv legacy s -> step legacy maxs s l = Some s' -> inv legacy s'.
 Proof.
-  intros [Hc Hidle Hend Hstop Hret Herr Hcbs Hfr] H.
+  intros [Hc Hidle Hstrm Hend Hstop Hret Herr Hwq Hcbs Hfr] H.
   destruct s as [p c es sv cv n q rd sd nx o lo wf].
-  unfold callbacks, held, queued, lostc in *.
-  cbn in *.
-Admitted.
+  unfold callbacks, held, queued, lostc in *. cbn in *.
+  destruct l; cbn in H; unfold enter_wait, inner_top in H; cbn in H.
+  all: destr_match H; injection H as <-; constructor; unfold callbacks, held, queued, lostc; cbn; auto.
+  all: try discriminate; try tauto; try congruence.
+  all: try (cons_arith Hc; fail).
+  all: try solve [intuition (try discriminate; try congruence)].
+  all: try solve [intros E; specialize (Hfr E); intuition (try discriminate; try congruence)].
+  all: try solve [intros; apply app_not_nil].
+  all: try solve [intros i Hi; destruct (Hwq i Hi); rewrite count_occ_snoc; eqdec; split; lia].
+  all: try solve [intros i Hi; destruct (Hwq i Hi) as [Hq ?]; cbn [count_occ] in Hq; eqdec; split; lia].
+  all: try solve [intros i [E|Hi]; [subst i; specialize (Hc n0); eqdec; try congruence; destruct (n0 <? nx) eqn:E; [apply Nat.ltb_lt in E|]; lia | apply Hwq, Hi]].
+  all: try solve [apply cbs_grow; [specialize (Hc n0); eqdec; try congruence; destruct (n0 <? nx); lia | assumption]].
+  all: try solve [intros i [= <-] Hi; destruct (Hwq _ Hi) as [Hq ?]; cbn [count_occ] in Hq; eqdec; try congruence; lia].
+  all: try solve [constructor; [split; cbn; intros; try apply app_not_nil; try discriminate; try congruence; eauto|assumption]].
+  - intros i. specialize (Hc i). rewrite (Hidle eq_refl) in Hc. cbn [count_occ] in Hc. eqdec; lia.
+  - intros E. destruct (Hfr E) as (_ & _ & Hw). destruct (Hw eq_refl) as [_ Hcv].
+    specialize (Hcv _ eq_refl). discriminate.
+Qed.
+
+
+Lemma reach_inv legacy maxs ls s : run (step legacy maxs) init ls = Some s -> inv legacy s.
+Proof. apply invariant_run; [intros; eapply step_inv; eauto|apply inv_init]. Qed.
+
+(* ---------------------------------------------------------------------------------------- *)
+(* C16_sender_exactly_once *)
+Theorem sender_exactly_once maxs ls s :
+  run (step false maxs) init ls = Some s ->
+  ph s <> Panicked
+  /\ (forall i, i < next s -> ~ pending i s -> callbacks i s = 1)
+  /\ (forall i, pending i s -> i < next s /\ callbacks i s = 0)
+  /\ (forall i, next s <= i -> callbacks i s = 0)
+  /\ (ph s = Stopped -> forall i, ~ pending i s)
+  /\ Forall (cb_carries_error (wfail s)) (out s).
+Proof.
+  intros R. pose proof (reach_inv _ _ _ _ R) as I. destruct I.
+  destruct (inv_fresh0 eq_refl) as (Hp & Hl & _).
+  assert (C : forall i, callbacks i s + held i s + queued i s = if i <? next s then 1 else 0).
+  { intros i. specialize (inv_cons0 i). unfold lostc in inv_cons0. rewrite Hl in inv_cons0. cbn in inv_cons0. lia. }
+  repeat split; auto.
+  - intros i Hi Np. specialize (C i). apply Nat.ltb_lt in Hi. rewrite Hi in C.
+    assert (held i s = 0).
+    { unfold held. destruct (cur s) as [j|] eqn:E; [|reflexivity]. destruct (Nat.eq_dec j i); [|reflexivity].
+      subst. exfalso; apply Np; left; exact E. }
+    assert (queued i s = 0).
+    { apply count0_notin. intros Q. apply Np. right; exact Q. }
+    lia.
+  - destruct H as [Hc|Hq]; specialize (C i); destruct (i <? next s) eqn:E; try (apply Nat.ltb_lt in E; exact E).
+    + unfold held in C. rewrite Hc in C. destruct (Nat.eq_dec i i); [lia|congruence].
+    + assert (queued i s > 0) by (apply count_occ_In, Hq). lia.
+  - destruct H as [Hc|Hq]; specialize (C i); destruct (i <? next s) eqn:E.
+    + unfold held in C. rewrite Hc in C. destruct (Nat.eq_dec i i); [lia|congruence].
+    + unfold held in C. rewrite Hc in C. destruct (Nat.eq_dec i i); [lia|congruence].
+    + assert (queued i s > 0) by (apply count_occ_In, Hq). lia.
+    + assert (queued i s > 0) by (apply count_occ_In, Hq). lia.
+  - intros i Hi. specialize (C i). apply Nat.ltb_ge in Hi. rewrite Hi in C. lia.
+  - intros St i [Hc|Hq].
+    + rewrite inv_end0 in Hc; [discriminate|tauto].
+    + rewrite (inv_stop0 St) in Hq. exact Hq.
+Qed.
+
+(* a callback is never made twice, in particular *)
+Corollary sender_at_most_once maxs ls s i :
+  run (step false maxs) init ls = Some s -> callbacks i s <= 1.
+Proof.
+  intros R. pose proof (reach_inv _ _ _ _ R) as I. destruct I.
+  specialize (inv_cons0 i). destruct (i <? next s); lia.
+Qed.
